@@ -4,7 +4,8 @@ set -e
 H=$VERIF/harness/c04
 CF="-O1 -g -fsanitize=address -fno-omit-frame-pointer -I$REPO -I$MC -I$H"
 par clang++ -std=c++17 -c $CF $H/c04_roundtrip.cpp -o $BUILD/h.o
-par clang++ -std=c++17 -c $CF -fno-access-control $H/gs_bind_cfg.cpp -o $BUILD/bind_cfg.o
+# C04 observes the receiver through its public API only (init, newchar, size(), cstr()): no private member is named
+par clang++ -std=c++17 -c $CF -DGS_PUBLIC_ONLY $H/gs_bind_cfg.cpp -o $BUILD/bind_cfg.o
 par clang++ -std=c++17 -c $CF $H/gs_bind_legacy.cpp -o $BUILD/bind_legacy.o
 par clang++ -std=c++17 -c $CF $REPO/igris/protocols/gstuff.cpp -o $BUILD/gstuff.o
 par clang -c $CF $REPO/igris/protocols/gstuff_v1/gstuff.c -o $BUILD/gstuff_v1.o
